@@ -442,6 +442,9 @@ fn vtext<W: Write>(r: &mut Rng, n: usize, out: &mut W) -> usize {
                 all.push(format!("{}{}\n{}", head, "b".repeat(half), "c".repeat(fill - half)).into_bytes());
             }
         }
+        // prerelease written without its hyphen, at and around the limit (the printed form is one byte longer)
+        all.push(format!("1.2.3{}", "a".repeat(total - 5)).into_bytes());
+        all.push(format!("1.2.3a{}.b+c", "0".repeat(total - 10)).into_bytes());
         all.push(format!("{}1.2.3", " ".repeat(total - 5)).into_bytes());
         all.push(format!("1.2.3{}", " ".repeat(total - 5)).into_bytes());
         all.push(format!("{}.2.3", "0".repeat(total - 4)).into_bytes());
